@@ -404,25 +404,71 @@ Ltac splits :=
 
 Ltac int_exec := expose; norms; repeat (bstep; simp); norms; splits; simp; norms; try reflexivity; try congruence.
 
+(* agreement restricted to a group of operations (so that a failing obligation names the group) *)
+Definition agrees_for (sel : opn -> bool) (Q : opn -> bool -> cty -> Z -> Z -> Prop) (P : sem -> Prop) (k : kind) (I : impl) : Prop :=
+  forall o vol f, sel o = true -> std_of k o = Some f ->
+  exists g, I o vol = Some g /\
+  forall S T spur v a1 a2, Q o spur T v a1 -> P S -> ty_of k T = true ->
+    ok T v = true -> ok (arg_ty T o) a1 = true -> ok T a2 = true ->
+    g S T spur v a1 a2 = f S T spur v a1 a2.
+
+Definition g_base (o : opn) : bool :=
+  match o with Assign | Store | Load | Conv | Xchg | Cew2 | Cew1 | Ces2 | Ces1 => true | _ => false end.
+Definition g_addsub (o : opn) : bool := match o with FAdd | FSub | AddA | SubA => true | _ => false end.
+Definition g_incdec (o : opn) : bool := match o with PreInc | PostInc | PreDec | PostDec => true | _ => false end.
+Definition g_bits (o : opn) : bool := match o with FAnd | FOr | FXor | AndA | OrA | XorA => true | _ => false end.
+Definition g_flag (o : opn) : bool := match o with Clear | TAS | Test => true | _ => false end.
+
+Lemma agrees_groups Q P k I :
+  agrees_for g_base Q P k I -> agrees_for g_addsub Q P k I -> agrees_for g_incdec Q P k I ->
+  agrees_for g_bits Q P k I -> agrees_for g_flag Q P k I -> agrees_on Q P k I.
+Proof.
+  intros H1 H2 H3 H4 H5 o vol f Hf.
+  destruct o; first [ apply H1; [reflexivity | exact Hf] | apply H2; [reflexivity | exact Hf]
+                    | apply H3; [reflexivity | exact Hf] | apply H4; [reflexivity | exact Hf]
+                    | apply H5; [reflexivity | exact Hf] ].
+Qed.
+
+Lemma agrees_for_none sel Q P k I : (forall o, sel o = true -> std_of k o = None) -> agrees_for sel Q P k I.
+Proof. intros H o vol f Hs Hf. rewrite (H o Hs) in Hf. discriminate. Qed.
+
 (* the proof of agreement for the integral types, as a script (used for both readings of the arithmetic) *)
 Ltac agree_int :=
-  intros o vol f Hf; destruct o; cbn in Hf; try discriminate; injection Hf as <-; destruct vol;
+  intros o vol f Hsel Hf; destruct o; cbn in Hsel; try discriminate; cbn in Hf; try discriminate; injection Hf as <-; destruct vol;
   (eexists; split; [reflexivity|]); intros S T spur v a1 a2 HQ HS HT Hv H1 H2;
   (destruct T as [w sg| | |]; try discriminate); cbn in HT, Hv, H1, H2; unfold wraps, any_sem in HS;
   destruct HQ as [HQ HG]; try (rewrite (HQ eq_refl)); int_exec.
 
-Lemma fiber_int_agrees : agrees0 wraps KInt fiber_int.
+Ltac no_flag_ops := apply agrees_for_none; intros o Ho; destruct o; try discriminate; reflexivity.
+
+(* load / store / exchange / compare_exchange / operator= / operator T *)
+Lemma fiber_int_base_ops : agrees_for g_base (impl_q no_guard) wraps KInt fiber_int.
 Proof. agree_int. Qed.
+(* fetch_add / fetch_sub / += / -= *)
+Lemma fiber_int_add_sub_ops : agrees_for g_addsub (impl_q no_guard) wraps KInt fiber_int.
+Proof. agree_int. Qed.
+(* ++x / x++ / --x / x-- *)
+Lemma fiber_int_inc_dec_ops : agrees_for g_incdec (impl_q no_guard) wraps KInt fiber_int.
+Proof. agree_int. Qed.
+(* fetch_and / fetch_or / fetch_xor / &= / |= / ^= *)
+Lemma fiber_int_bit_ops : agrees_for g_bits (impl_q no_guard) wraps KInt fiber_int.
+Proof. agree_int. Qed.
+
+Lemma fiber_int_agrees : agrees0 wraps KInt fiber_int.
+Proof.
+  apply agrees_groups; [exact fiber_int_base_ops | exact fiber_int_add_sub_ops | exact fiber_int_inc_dec_ops
+                       | exact fiber_int_bit_ops | no_flag_ops].
+Qed.
 
 (* the strict reading (signed overflow undefined), under the explicit guard "the result fits" *)
 Ltac agree_int_guarded :=
-  intros o vol f Hf; destruct o; cbn in Hf; try discriminate; injection Hf as <-; destruct vol;
+  intros o vol f Hsel Hf; destruct o; cbn in Hsel; try discriminate; cbn in Hf; try discriminate; injection Hf as <-; destruct vol;
   (eexists; split; [reflexivity|]); intros S T spur v a1 a2 HQ HS HT Hv H1 H2;
   (destruct T as [w sg| | |]; try discriminate); cbn in HT, Hv, H1, H2;
   destruct HQ as [HQ HG]; destruct sg; cbn [no_signed_overflow arith_of] in HG; try (rewrite (HQ eq_refl)); int_exec.
 
 Lemma fiber_int_agrees_guarded : agrees_on (impl_q no_signed_overflow) any_sem KInt fiber_int.
-Proof. agree_int_guarded. Qed.
+Proof. apply agrees_groups; [agree_int_guarded | agree_int_guarded | agree_int_guarded | agree_int_guarded | no_flag_ops]. Qed.
 
 (* the other kinds compute once T is a constructor *)
 Ltac conc_exec :=
@@ -442,19 +488,42 @@ Proof.
   (destruct T; try discriminate); cbn in Hv, H1, H2; bools; subst; reflexivity.
 Qed.
 
-Lemma fiber_ptr_agrees P : agrees0 P KPtr fiber_ptr.
-Proof.
-  intros o vol f Hf; destruct o; cbn in Hf; try discriminate; injection Hf as <-; destruct vol;
+Ltac agree_ptr :=
+  intros o vol f Hsel Hf; destruct o; cbn in Hsel; try discriminate; cbn in Hf; try discriminate; injection Hf as <-; destruct vol;
   (eexists; split; [reflexivity|]); intros S T spur v a1 a2 HQ HS HT Hv H1 H2;
   (destruct T as [| |sz|]; try discriminate); cbn [ok arg_ty] in Hv, H1, H2; unfold ptrdiff_t in H1; cbn [ok] in H1;
   destruct HQ as [HQ _]; try (rewrite (HQ eq_refl)); conc_exec.
+
+(* pointer ++x / x++ / --x / x-- *)
+Lemma fiber_ptr_inc_dec_ops P : agrees_for g_incdec (impl_q no_guard) P KPtr fiber_ptr.
+Proof. agree_ptr. Qed.
+(* pointer fetch_add / fetch_sub / += / -= (element-scaled) *)
+Lemma fiber_ptr_add_sub_ops P : agrees_for g_addsub (impl_q no_guard) P KPtr fiber_ptr.
+Proof. agree_ptr. Qed.
+Lemma fiber_ptr_base_ops P : agrees_for g_base (impl_q no_guard) P KPtr fiber_ptr.
+Proof. agree_ptr. Qed.
+
+Lemma fiber_ptr_agrees P : agrees0 P KPtr fiber_ptr.
+Proof.
+  apply agrees_groups; [apply fiber_ptr_base_ops | apply fiber_ptr_add_sub_ops | apply fiber_ptr_inc_dec_ops | |];
+    apply agrees_for_none; intros o Ho; destruct o; try discriminate; reflexivity.
 Qed.
+
+Ltac agree_flt :=
+  intros o vol f Hsel Hf; destruct o; cbn in Hsel; try discriminate; cbn in Hf; try discriminate; injection Hf as <-; destruct vol;
+  (eexists; split; [reflexivity|]); intros S T spur v a1 a2 HQ HS HT Hv H1 H2;
+  (destruct T; try discriminate); destruct HQ as [HQ _]; try (rewrite (HQ eq_refl)); conc_exec.
+
+(* floating load / store / exchange / compare_exchange: the comparison is on the object representation *)
+Lemma fiber_flt_base_ops P : agrees_for g_base (impl_q no_guard) P KFlt fiber_flt.
+Proof. agree_flt. Qed.
+Lemma fiber_flt_add_sub_ops P : agrees_for g_addsub (impl_q no_guard) P KFlt fiber_flt.
+Proof. agree_flt. Qed.
 
 Lemma fiber_flt_agrees P : agrees0 P KFlt fiber_flt.
 Proof.
-  intros o vol f Hf; destruct o; cbn in Hf; try discriminate; injection Hf as <-; destruct vol;
-  (eexists; split; [reflexivity|]); intros S T spur v a1 a2 HQ HS HT Hv H1 H2;
-  (destruct T; try discriminate); destruct HQ as [HQ _]; try (rewrite (HQ eq_refl)); conc_exec.
+  apply agrees_groups; [apply fiber_flt_base_ops | apply fiber_flt_add_sub_ops | | |];
+    apply agrees_for_none; intros o Ho; destruct o; try discriminate; reflexivity.
 Qed.
 
 (* ------------------------------------------------------------------------------------------------ 3. the wrapper *)
